@@ -172,6 +172,11 @@ theorem WInvX.sameCore {x : Option Nat} {w w' : World} (h : WInvX x w) (s : Same
     intro p pr' cr c hp' hcq
     obtain ⟨pr, a, _, _, _, _, _, _, g, _⟩ := hpr p pr' hp'
     exact h.connReqLive p pr cr c a (by rw [← g]; exact hcq)
+  case connReqRef =>
+    rw [s.nextCR]
+    intro p pr' cr hp' hcq
+    obtain ⟨pr, a, _, _, _, _, _, _, g, _⟩ := hpr p pr' hp'
+    exact h.connReqRef p pr cr a (by rw [← g]; exact hcq)
   case subArmed =>
     rw [s.ents]; intro e he hb ha; rw [(s.reqs e.rid).2.2] at ha
     obtain ⟨p, pr, a, b, c⟩ := h.subArmed e he hb ha
@@ -269,6 +274,7 @@ theorem dropArmed_inv {x : Option Nat} {w : World} (h : WInvX x w) {e : Ent} (he
   case connackOwned => intro t' cr hp; exact h.connackOwned t' cr ((hpending _ _).mp hp).1
   case retryLive => intro t' p rid hp; exact h.retryLive t' p rid ((hpending _ _).mp hp).1
   case connReqLive => exact h.connReqLive
+  case connReqRef => exact h.connReqRef
   case subArmed => intro y hy; exact h.subArmed y ((hmem y).mp hy).1
   case profileOk => exact h.profileOk
   case bufOk => exact h.bufOk
@@ -350,6 +356,7 @@ theorem fireD_inv {x : Option Nat} {w : World} (h : WInvX x w) {d : Nat} (hd : d
     rcases hmem with rfl | hmem
     · exact hcl p pr cr c hp' hcq hc hd'
     · exact (h.connReqLive p pr cr c hp' hcq hc).2 d' hd' hmem
+  case connReqRef => exact h.connReqRef
   case subArmed => exact h.subArmed
   case profileOk => exact h.profileOk
   case bufOk => exact h.bufOk
@@ -399,6 +406,7 @@ theorem dropQuiet_inv {x : Option Nat} {w : World} (h : WInvX x w) {e : Ent} (ha
   case connackOwned => exact h.connackOwned
   case retryLive => exact h.retryLive
   case connReqLive => exact h.connReqLive
+  case connReqRef => exact h.connReqRef
   case subArmed => intro y hy; exact h.subArmed y ((hmem y).mp hy).1
   case profileOk => exact h.profileOk
   case bufOk => exact h.bufOk
@@ -510,6 +518,7 @@ theorem disarm_inv {x : Option Nat} {w : World} (h : WInvX x w) {e : Ent} (he : 
   case connackOwned => intro t' cr hp; exact h.connackOwned t' cr ((hpending _ _).mp hp).1
   case retryLive => intro t' p rid hp; exact h.retryLive t' p rid ((hpending _ _).mp hp).1
   case connReqLive => exact h.connReqLive
+  case connReqRef => exact h.connReqRef
   case subArmed =>
     intro y hy hb ha
     by_cases hye : y = e
@@ -699,6 +708,7 @@ theorem armed_inv {x : Option Nat} {w : World} (h : WInvX x w) {e : Ent} (he : e
     · exact h.retryLive t' q rid hp1
     · injection hp2 with hq' _; subst hq'; exact ⟨ppr, hpp, hlive⟩
   case connReqLive => exact h.connReqLive
+  case connReqRef => exact h.connReqRef
   case subArmed =>
     intro y hy hb ha
     by_cases hye : y = e
@@ -900,6 +910,7 @@ theorem addWindow_inv {x : Option Nat} {w : World} (h : WInvX x w) (a : Nat) (bo
     · exact h.retryLive t' q rid' hp1
     · injection hp2 with hq' _; subst hq'; exact ⟨ppr, hpp, hlive⟩
   case connReqLive => exact h.connReqLive
+  case connReqRef => exact h.connReqRef
   case subArmed =>
     intro y hy hb ha
     rcases (hmem y).mp hy with hy | rfl
@@ -1041,6 +1052,7 @@ theorem addQueue_inv {x : Option Nat} {w : World} (h : WInvX x w) (a rid : Nat) 
   case connackOwned => exact h.connackOwned
   case retryLive => exact h.retryLive
   case connReqLive => exact h.connReqLive
+  case connReqRef => exact h.connReqRef
   case subArmed =>
     intro y hy hb ha
     rcases (hmem y).mp hy with hy | rfl
